@@ -129,7 +129,9 @@ def _worker(job):
     stub = _StubChk(seed)
     rp = Replayer(stub, gfj, variant=variant, check_roundtrip=check_roundtrip)
     out = []
-    for prog, hist in items:
+    for n_item, (prog, hist) in enumerate(items):
+        if n_item and n_item % 400 == 0:
+            __import__("jax").clear_caches()      # see common.Check.case
         key, bad = rp.replay_state(prog, hist)
         detail = {"program": prog, "history": [_slim(o) for o in hist], "variant": variant} if bad else None
         out.append((key, bad, detail))
